@@ -3,6 +3,8 @@
 // group of dimensions keeps each compile under a minute).
 #include "c14_vector.hpp"
 
+#include <cstring>
+
 using namespace verif;
 using namespace c14;
 
@@ -142,6 +144,99 @@ Reg const r_random{"vec_random_" + tag, Kind::random,
                    }};
 
 #if C14_NMAX == 4
+// ---------------------------------------------------------------- raw_view: a storage whose references are memcpy proxies
+// (the storage of test/math/vector/raw_view.cpp; only the operations shown there are used: element
+// access through x()..w() / get_unsafe / at, assignment through the proxy, copying the vector)
+template <typename Type, typename Pointer>
+class byte_proxy
+{
+public:
+  explicit byte_proxy(Pointer const p) : data_{p} {}
+  operator Type() const // NOLINT
+  {
+    Type r;
+    std::memcpy(&r, data_, sizeof(Type));
+    return r;
+  }
+  byte_proxy &operator=(Type const &v)
+  {
+    std::memcpy(data_, &v, sizeof(Type));
+    return *this;
+  }
+
+private:
+  Pointer data_;
+};
+template <typename Type>
+class raw_view
+{
+public:
+  using size_type = fcppt::math::size_type;
+  using pointer = unsigned char *;
+  using const_pointer = unsigned char const *;
+  using reference = byte_proxy<Type, pointer>;
+  using const_reference = byte_proxy<Type, const_pointer>;
+  explicit raw_view(pointer const p) : data_(p) {}
+  reference operator[](size_type const i) { return reference{data_ + i * sizeof(Type)}; }
+  const_reference operator[](size_type const i) const { return const_reference{data_ + i * sizeof(Type)}; }
+
+private:
+  pointer data_;
+};
+template <std::size_t N, std::size_t... I>
+void raw_view_case(Vec<int, N> const &a, int const route, std::index_sequence<I...>)
+{
+  using V = fcppt::math::vector::object<int, N, raw_view<int>>;
+  // the buffer is deliberately misaligned for int
+  alignas(int) unsigned char bytes[N * sizeof(int) + 1] = {};
+  V v{raw_view<int>(bytes + 1)};
+  (vec_write_one<int, N, I>(v, a, route), ...);
+  Vec<int, N> stored{};
+  std::memcpy(stored.data(), bytes + 1, N * sizeof(int));
+  V const copy(v);
+  bool ok = stored == a;
+  ok = ok && ((static_cast<int>(fcppt::math::vector::at<I>(copy)) == a[I] && static_cast<int>(copy.get_unsafe(I)) == a[I] && static_cast<int>(v.get_unsafe(I)) == a[I]) && ...);
+  if constexpr (N >= 1) ok = ok && static_cast<int>(copy.x()) == a[0];
+  if constexpr (N >= 2) ok = ok && static_cast<int>(copy.y()) == a[1];
+  if constexpr (N >= 3) ok = ok && static_cast<int>(copy.z()) == a[2];
+  if constexpr (N >= 4) ok = ok && static_cast<int>(copy.w()) == a[3];
+  if (!ok) fail("vector::object|raw_view-storage|" + vlbl<N>(), "values " + show_arr(a) + " written through route " + std::to_string(route) + " read back as " + show_arr(stored));
+}
+// {N, route, four components as one packed word}
+void raw_view_one(Ints const &c)
+{
+  i64 const n = 1 + (c.at(0) + 3) % 4;
+  int const route = static_cast<int>(c.at(1) % 3);
+  Vec<int, 4> a{};
+  u64 w = static_cast<u64>(c.at(2));
+  for (int &x : a)
+  {
+    x = static_cast<int>(w % 19) - 9;
+    w /= 19;
+  }
+  count(!is_null_or_unit<int, 4>(a));
+  switch (n)
+  {
+  case 1: raw_view_case<1>(head<1>(a), route, std::make_index_sequence<1>{}); break;
+  case 2: raw_view_case<2>(head<2>(a), route, std::make_index_sequence<2>{}); break;
+  case 3: raw_view_case<3>(head<3>(a), route, std::make_index_sequence<3>{}); break;
+  default: raw_view_case<4>(a, route, std::make_index_sequence<4>{}); break;
+  }
+}
+Reg const r_raw{"raw_view", Kind::exhaustive,
+                "vectors of dimension 1-4 over a memcpy-proxy storage on a misaligned byte buffer: writes through at / get_unsafe / x..w, read back from the bytes and through a copy; components from a fixed lattice of packed words; non-trivial: not null / unit",
+                [] {
+                  for (i64 n = 1; n <= 4; ++n)
+                    for (i64 route = 0; route < 3; ++route)
+                      for (i64 w = 0; w < 19 * 19 * 19 * 19; w += 7)
+                      {
+                        cur3(n, route, w);
+                        raw_view_one({n, route, w});
+                      }
+                },
+                raw_view_one,
+                [](Ints const &c) { return "raw_view vector of dimension " + std::to_string(1 + (c.at(0) + 3) % 4) + ", route " + std::to_string(c.at(1) % 3) + ", packed components " + std::to_string(c.at(2)); }};
+
 Reg const r_bits{"bit_strings", Kind::exhaustive, "bit_strings<int,N> and <unsigned,N> for N = 1..5 (fixed outputs); non-trivial: N >= 2",
                  [] {
                    for (i64 n = 1; n <= 5; ++n)
